@@ -183,6 +183,26 @@ def toyMemTable (t : Toy.TSim) : String :=
       let mark := if t.s.addrCur = some a.toNat ∧ a ≥ 0 then cyc else ""
       s!"{a},{hex ("0x" ++ upHex 3 a.toNat)},{reprsStr (Fmt.nBitRepr v 16)},{hex ir},{hex mark}")
 
+def tyStr : Rv.Ty → String
+  | .r => "r" | .i => "i" | .memI => "memI" | .shiftI => "shiftI" | .s => "s" | .b => "b" | .u => "u"
+  | .j => "j" | .fence => "fence" | .csr => "csr" | .csri => "csri"
+
+def ctlStr (c : Rv.Ctl) : String :=
+  s!"{ob c.aluSrc1},{ob c.aluSrc2},{on c.wbSrc},{ob c.regWrite},{ob c.memRead},{ob c.memWrite},{ob c.branch},{ob c.jump},{on c.aluOp},{ob c.aluToPc}"
+
+/-- Constant tables of the models, printed canonically. -/
+def constsStr (what : String) : String :=
+  match what with
+  | "ops" => joinC (Rv.allOps.map fun o => s!"{o.mnemonic}:{tyStr o.ty}")
+  | "ctl" => String.intercalate ";" (Rv.allOps.map fun o =>
+      s!"{o.mnemonic}={ctlStr (Rv.ctlOf { op := o })}|w={on (Rv.writeReg { op := o, rd := if o = .ecall ∨ o = .ebreak then 0 else 7 })}|b={Rv.accessBits o}")
+  | "asm" =>
+    let l (xs : List String) := joinC xs
+    s!"rrr={l Asm.rrrMn}|i={l Asm.normalIMn}|memi={l Asm.memIMn}|b={l Asm.bMn}|s={l Asm.sMn}|u={l Asm.uMn}|csr={l Asm.csrMn}|csri={l Asm.csriMn}|abi={joinC (Asm.abiNames.map fun (n, k) => s!"{n}:{k}")}"
+  | "toy" => s!"addr={joinC ToyAsm.addrMnemonics}|noaddr={joinC ToyAsm.noAddrMnemonics}|opc={joinC ((ToyAsm.addrMnemonics ++ ToyAsm.noAddrMnemonics).map fun m => s!"{m}:{ToyAsm.opcodeOf m}")}|mn={joinC ((List.range 16).map Toy.mnemonic)}"
+  | "mem" => s!"riscv={Mem.riscvCfg.cellBits},{Mem.riscvCfg.addrBits},{boolStr Mem.riscvCfg.overflow},{Mem.riscvCfg.lo},{Mem.riscvCfg.hi}|toy={Mem.toyCfg.cellBits},{Mem.toyCfg.addrBits},{boolStr Mem.toyCfg.overflow},{Mem.toyCfg.lo},{Mem.toyCfg.hi}|imem=0,16384"
+  | _ => "bad-op"
+
 /-! ### driver state -/
 
 inductive DC where
@@ -480,6 +500,8 @@ def process (st : State) (line : String) : State × String :=
     match unhex h with
     | some text => let (t, out) := ToyAsm.loadProgram st.toy text; ({ st with toy := t }, out)
     | none => (st, "bad-op")
+  /- constant tables of the models (compared exhaustively with the tables of the code) -/
+  | ["consts", what] => (st, constsStr what)
   /- displayed tables (C17): register table, data-memory table, TOY registers and memory table -/
   | ["sim.regtable"] =>
     match st.sim with
